@@ -444,6 +444,33 @@ func C14(run *mon.Run) {
 		run.Eval(1)
 	}
 	run.Shape("rejected-lengths")
+	// separate generators used from 16 goroutines at once
+	{
+		var table []func() []byte
+		for i := 0; i < 12; i++ {
+			seed, cust := mon.RandBytes(r, 32), mon.RandBytes(r, i%13)
+			n := []int{1, 63, 64, 65, 200, 5000}[i%6]
+			table = append(table, func() []byte {
+				g, err := random.NewChacha20PRG(seed, cust)
+				if err != nil {
+					return []byte("error:" + err.Error())
+				}
+				b := make([]byte, n)
+				g.Read(b)
+				g2, err := random.RestoreChacha20PRG(g.Store())
+				if err != nil {
+					return []byte("error:" + err.Error())
+				}
+				return append(append(b, prgScript(g2, uint64(n), 12)...), g2.Store()...)
+			})
+		}
+		calls, diff := parallelReplay(table, run.Pick(1500, 30000), uint64(run.Seed))
+		run.Eval(int(calls))
+		if diff != "" {
+			run.Violate("C14:parallel-use-differs", "separate ChaCha20 generators built, read, stored and restored from 16 goroutines at once: "+diff, nil)
+		}
+		run.Shape("parallel-replay")
+	}
 	run.Require(run.SetLen("offsets") == maxOff+1, "not every restore offset exercised")
 	run.Sample(map[string]any{"sequences": len(seqs), "offsets": maxOff + 1, "example_reads": seqs[len(seqs)-1]})
 }
